@@ -595,6 +595,13 @@ fn gen_ops(r: &mut Rng, cfg: &RunCfg, tier: Tier, big_max: u32) -> Vec<Op> {
 			pipe.apply(op);
 		}
 		crashes += 1;
+	} else if matches!(scenario, "crash" | "drop" | "ioerr" | "struct") && w.crash + w.ioerr > 0 && !cfg.sync_data && r.chance(1, 3) {
+		ops = many_logs_pattern(r, cfg, big_max, &mut tree_state, quick);
+		feature("many_kept_logs_prefix");
+		for op in &ops {
+			pipe.apply(op);
+		}
+		crashes += 1;
 	}
 	let n = if cfg.cols[0].bulk.is_some() { ops.len() + std::cmp::min(n, 12) } else { n };
 	while ops.len() < n {
@@ -895,6 +902,49 @@ fn rotation_pattern(r: &mut Rng, cfg: &RunCfg, big_max: u32, ts: &mut crate::gen
 			inner,
 			plan: CrashPlan {
 				kind,
+				stride: 1,
+				phase: 0,
+				max: if quick { 16 } else { 40 },
+				adopt: r.below(64) as u32,
+				boundary: false,
+				recrash: 0,
+			},
+		});
+	}
+	ops
+}
+
+/// Without `sync_data` the database keeps the 16 most recent consumed log files and reclaims only
+/// older ones: one log file per record for 17-22 records, reclamation after each of the later ones,
+/// one more record synced and not applied, and a crash (or failure) in the next step. Recovery then
+/// meets kept logs whose records are already in the tables, followed by the pending one.
+fn many_logs_pattern(r: &mut Rng, cfg: &RunCfg, big_max: u32, ts: &mut crate::gen2::TreeGen, quick: bool) -> Vec<Op> {
+	let scenario = cfg.scenario.as_str();
+	let mut ops = Vec::new();
+	let rounds = r.range(17, 23);
+	for i in 0..rounds {
+		ops.push(Op::Commit(gen_tx(r, cfg, big_max, ts)));
+		ops.push(Op::Step(Stage::ProcessCommits));
+		ops.push(Op::Step(Stage::Flush));
+		if i >= 14 {
+			ops.push(Op::Step(Stage::Clean));
+		}
+		ops.push(Op::Step(Stage::EnactAll));
+	}
+	ops.push(Op::Step(Stage::Clean));
+	ops.push(Op::Commit(gen_tx(r, cfg, big_max, ts)));
+	ops.push(Op::Step(Stage::ProcessCommits));
+	ops.push(Op::Step(Stage::Flush));
+	let inner = Box::new(Op::Step(*r.pick(&[Stage::Clean, Stage::EnactAll, Stage::EnactOne])));
+	if scenario == "ioerr" {
+		let tryio = r.chance(1, 2);
+		ops.push(Op::IoErr { inner, after: r.below(14) as u32, errno: libc::EIO, tryio, space_only: false });
+	} else {
+		ts.on_crash();
+		ops.push(Op::Crash {
+			inner,
+			plan: CrashPlan {
+				kind: CrashKind::Proc,
 				stride: 1,
 				phase: 0,
 				max: if quick { 16 } else { 40 },
